@@ -24,6 +24,16 @@ Definition dispatch_rotation (op : pstr) (a : val) : option val :=
       Some (of_res (fun p : Z * Z => VList [VInt (fst p); VInt (snd p)])
               (dor _ <- obj_construct sq sst; Ok (rotate_pairtable_loc l n (size_of sq))))
     | _ => None end))
+  else if op_is op "rotate_complex_pt_turns" then Some (or_bad (
+    match a with VList [st; pt; turns] =>
+      do st <- as_stab st; do pt <- as_tab pt; do turns <- as_opt as_int turns;
+      Some (of_parts (rotate_complex_pt_turns turns st pt))
+    | _ => None end))
+  else if op_is op "rotate_complex_db_turns" then Some (or_bad (
+    match a with VList [sq; sst; turns] =>
+      do sq <- as_strs sq; do sst <- as_chars sst; do turns <- as_opt as_int turns;
+      Some (of_res of_dbs (rotate_complex_db_turns sq sst turns))
+    | _ => None end))
   else if op_is op "obj_size" then Some (or_bad (
     match a with VList [sq; sst] =>
       do sq <- as_strs sq; do sst <- as_chars sst;
